@@ -1626,3 +1626,10 @@ fn c03_recv_response_beyond_window_ignored() {
 fn t03_recv_response_sequence_max_ignored() {
     recv_response_out_of_window(64000, 100, 65535);
 }
+
+/// Reset harness-side statics between native witness-search trials.
+fn verif_reset_statics() {
+    clock::set(0, 0, 0);
+    clock::set(1, 0, 0);
+    clock::set(2, 0, 0);
+}
